@@ -4,7 +4,7 @@ from contracts import roms_forcing as F
 from contracts import roms_init as I
 from contracts import roms_sample as S
 
-UNITS = [S.Trilinear(), S.Z2sKernelSorted(), S.Z2s(), S.Sample3DNearest(), S.Sample3DBilinear(), S.Sample3DUV(), F.Velocity(), F.ForceParticles(),
+UNITS = [S.Trilinear(), S.Z2sKernelSorted(), S.Z2s(), S.Sample3DNearest(), S.Sample3DBilinear(), S.Sample3DUV(), F.Velocity(), F.ForceParticles(), F.Update("bracket"), F.Update("start"),
          I.GridInit(True), I.GridInit(False)] + list(I.FORCING_IO_UNITS)
 LEMMAS = [L.LerpBound(), L.NestedLerpIdentity(), L.SubgridIndependence()]
 NATIVE = [dict(name="exactness on linear fields, subgrid independence, packed vs float storage, land faces (real Grid + Forcing)", harness="sampling_bounded", kind="bounded"), 
